@@ -9,7 +9,7 @@ pub trait Same: Copy {
     fn same(self, o: Self) -> bool;
 }
 macro_rules! same_eq { ($($t:ty),*) => { $(impl Same for $t { fn same(self, o: Self) -> bool { self == o } })* } }
-same_eq!(u8, u32, i8, [u8; 3]);
+same_eq!(u8, u16, u32, u64, i8, i16, i32, i64, usize, isize, [u8; 3]);
 impl Same for f32 {
     fn same(self, o: Self) -> bool { self.to_bits() == o.to_bits() }
 }
